@@ -63,8 +63,11 @@ func ReadWireMessage(r io.Reader, scope *slip.Scope) (obj slip.Object, err error
 
 // WriteWireMessage writes a length-prefixed S-expression to the writer.
 func WriteWireMessage(w io.Writer, msg slip.Object) error {
-	// Serialize to S-expression string
-	payload := slip.ObjectString(msg)
+	// Serialize to an S-expression the peer can read back (strings escaped).
+	p := *slip.DefaultPrinter()
+	p.Readably = true
+	p.ReadablyError = false
+	payload := p.Append(nil, msg, 0)
 
 	// Encode length as 6 uppercase hex digits
 	header := fmt.Sprintf("%06X", len(payload))
